@@ -134,7 +134,7 @@ func runOverlayTest(pkgRel, file string, extra []string, run string, timeoutS in
 	if timeoutS == 0 {
 		timeoutS = 120
 	}
-	args := []string{"test", "-overlay", ovFile, "-vet=off", "-count=1", "-timeout", fmt.Sprintf("%ds", timeoutS), "-run", run}
+	args := []string{"test", "-v", "-overlay", ovFile, "-vet=off", "-count=1", "-timeout", fmt.Sprintf("%ds", timeoutS), "-run", run}
 	if tags != "" {
 		args = append(args, "-tags", tags)
 	}
